@@ -87,15 +87,16 @@ macro_rules! with_engine {
 
 /// (engine, runs in the quick tier, runs in the thorough tier)
 fn plan(prop: &str) -> Vec<(Eng, u64, u64)> {
+    // thorough budgets are sized for roughly 5-10 minutes per check on 16 idle cores
     match prop {
-        "C02" => vec![(Eng::E1U, 200_000, 6_000_000)],
-        "C18" => vec![(Eng::E1J, 200_000, 6_000_000)],
-        "C01" | "C03" | "C07" => vec![(Eng::E1U, 120_000, 3_000_000), (Eng::E1J, 120_000, 3_000_000)],
-        "C17" => vec![(Eng::E1U, 40_000, 1_500_000), (Eng::E1J, 30_000, 1_000_000)],
-        "C04" | "C05" | "C06" | "C09" | "C10" | "C11" | "C12" => vec![(Eng::E3, 150_000, 5_000_000)],
-        "C20" => vec![(Eng::E2U, 100_000, 3_000_000), (Eng::E2J, 60_000, 2_000_000)],
+        "C02" => vec![(Eng::E1U, 200_000, 1_500_000)],
+        "C18" => vec![(Eng::E1J, 200_000, 500_000)],
+        "C01" | "C03" | "C07" => vec![(Eng::E1U, 120_000, 800_000), (Eng::E1J, 120_000, 300_000)],
+        "C17" => vec![(Eng::E1U, 40_000, 30_000), (Eng::E1J, 30_000, 12_000)], // thorough: fewer but far larger runs (batches up to 5000)
+        "C04" | "C05" | "C06" | "C09" | "C10" | "C11" | "C12" => vec![(Eng::E3, 150_000, 1_000_000)],
+        "C20" => vec![(Eng::E2U, 100_000, 1_000_000), (Eng::E2J, 60_000, 400_000)],
         "C16" => vec![(Eng::E4, 60_000, 1_000_000)],
-        "C08" => vec![(Eng::E1U, 60_000, 1_500_000), (Eng::E1J, 60_000, 1_500_000)],
+        "C08" => vec![(Eng::E1U, 60_000, 400_000), (Eng::E1J, 60_000, 150_000)],
         _ => vec![],
     }
 }
